@@ -11,10 +11,11 @@ From KP Require Import model.Base model.ServiceMap.
 Record variant := mkVariant {
   fix_dispose_on_conflict : bool;   (* D4: dispose the new balancer when install fails *)
   fix_restored_pause_chan : bool;   (* D5: restored paused controller gets a channel *)
-  fix_restored_rollout : bool       (* D6: no rollout balancer restored without rollout targets *)
+  fix_restored_rollout : bool;      (* D6: no rollout balancer restored without rollout targets *)
+  fix_cert_root_only : bool         (* D17: only root path services get a certificate manager *)
 }.
-Definition pinned : variant := mkVariant false false false.
-Definition fixed : variant := mkVariant true true true.
+Definition pinned : variant := mkVariant false false false false.
+Definition fixed : variant := mkVariant true true true true.
 
 (** ** Options *)
 
@@ -123,9 +124,12 @@ Definition valid_target_name (n : str) : bool :=
 
 (** ** initialize(): certificate manager and middleware *)
 
-Definition init_check (o : sopts) : option err :=
+Definition wants_cert (v : variant) (o : sopts) : bool :=
+  o_tls o && (negb (fix_cert_root_only v) || mem_str root_path (o_prefixes o)).
+
+Definition init_check (v : variant) (o : sopts) : option err :=
   let cert_err :=
-    if o_tls o then
+    if wants_cert v o then
       match o_cert o with
       | CertGood => None
       | CertBad => Some ECert
@@ -215,7 +219,7 @@ Definition set_pause_state (s : service) (new : pstate) (msg : str) : option ser
 (** ** Restore (RestoreLastSavedState + UnmarshalJSON) *)
 
 Definition restore_svc (v : variant) (s : service) : option service :=
-  match init_check (s_opts s) with
+  match init_check v (s_opts s) with
   | Some _ => None
   | None =>
     let p := s_pause s in
@@ -228,7 +232,7 @@ Definition restore_svc (v : variant) (s : service) : option service :=
               | Some ts => Some ts
               | None => if fix_restored_rollout v then None else Some []
               end in
-    Some (mkSvc (s_name s) (s_opts s) (s_topts s) (s_active s) ro p' (s_roll s) (o_tls (s_opts s)))
+    Some (mkSvc (s_name s) (s_opts s) (s_topts s) (s_active s) ro p' (s_roll s) (wants_cert v (s_opts s)))
   end.
 
 Fixpoint restore_all (v : variant) (saved : list service) : option (list service) :=
@@ -259,12 +263,12 @@ Definition exec (v : variant) (st : state) (c : cmd) : result * state :=
   match c with
   | Deploy name o t targets =>
     let o' := normalize o in
-    match init_check o' with
+    match init_check v o' with
     | Some e => (Err e, st)
     | None =>
       let s := match svc_get (st_services st) name with
-               | Some old => mkSvc name o' t (s_active old) (s_rollout old) (s_pause old) (s_roll old) (o_tls o')
-               | None => mkSvc name o' t [] None pause_new None (o_tls o')
+               | Some old => mkSvc name o' t (s_active old) (s_rollout old) (s_pause old) (s_roll old) (wants_cert v o')
+               | None => mkSvc name o' t [] None pause_new None (wants_cert v o')
                end in
       deploy_into v st s false targets
     end
